@@ -8,22 +8,42 @@ GEN = os.path.join(checklib.LEAN, "Ecal", "Gen", "C20.lean")
 
 
 def extract(ctx):
-    """regenerate lean/Ecal/Gen/C20.lean (buffer geometry, marker assembly, skip table) from
-    cli/tool/pack.go of the tree under test with the harness's go/ast extractor"""
+    """regenerate lean/Ecal/Gen/C20.lean (buffer geometry, marker assembly, skip table, call of
+    RunPackedBinary in main) from cli/tool/pack.go and cli/ecal.go of the tree under test with the
+    harness's go/ast extractor, and build the real CLI executable for the process cases.
+    A source the extractor cannot translate is NOT a check error: the generated file then carries
+    `extractProblems` (obligation extract_complete breaks) and reference values, the sweep runs."""
     binp = checklib.go_build(ctx)
-    if os.path.exists(GEN):
+    previous = open(GEN).read() if os.path.exists(GEN) else None
+    if previous is not None:
         os.remove(GEN)
     p = subprocess.run([binp, "C20", "-tool", "extract", GEN], stdout=subprocess.PIPE, stderr=subprocess.STDOUT,
-                       text=True, env=checklib.GOENV, cwd=ctx.work, timeout=120)
+                       text=True, env=dict(checklib.GOENV, VERIF_REPO=checklib.REPO), cwd=ctx.work, timeout=120)
     if p.returncode != 0 or not os.path.exists(GEN):
-        raise checklib.CheckError("C20 fact extraction from cli/tool/pack.go failed: " + p.stdout[-800:])
-    ctx.log("extracted scanner geometry:", " ".join(
-        l.strip() for l in open(GEN) if l.startswith("def ") and "skipTable" not in l and "markerPieces" not in l))
+        # the extractor itself failed (unreadable source): keep the last generated facts, marked as not regenerated
+        msg = "extractor failed: " + " ".join(p.stdout.split())[:300].replace('"', "'").replace("\\", "/")
+        ctx.notes.append("C20 facts NOT regenerated (" + msg + "); the last committed Gen/C20.lean was used for the sweep")
+        if previous is None:
+            raise checklib.CheckError("C20: no generated facts and the extractor failed: " + p.stdout[-500:])
+        import re
+        txt = re.sub(r"def extractProblems : List String := \[.*\]", 'def extractProblems : List String := ["%s"]' % msg, previous)
+        open(GEN, "w").write(txt)
+    facts = open(GEN).read()
+    ctx.log("extracted:", " ".join(l.strip() for l in facts.splitlines()
+                                   if l.startswith("def ") and "skipTable" not in l and "markerPieces" not in l))
+    p = subprocess.run([binp, "C20", "-tool", "buildcli", os.path.join(ctx.work, "ecal-cli")], stdout=subprocess.PIPE,
+                       stderr=subprocess.STDOUT, text=True, env=dict(checklib.GOENV, VERIF_REPO=checklib.REPO),
+                       cwd=ctx.work, timeout=900)
+    if p.returncode != 0:
+        raise checklib.CheckError("C20: building the CLI of the tree under test failed: " + p.stdout[-800:])
 
 
 def decode(p):
     f = p.split(" ")
     try:
+        if f[0] == "proc":
+            return {"real_executable": "CLI of the tree under test, packed with project tree %s" % f[1], "entry_returns": int(f[2]),
+                    "command_line": [] if f[3] == "-" else [bytes.fromhex(x).decode("latin1") for x in f[3].split(",")]}
         filler = {"0": "letters (no '#')", "1": "'#' every 61 bytes, newline every 127", "2": "pseudo-random (LCG seed %s)" % f[3]}[f[2]]
         d = {"packed": f[0] == "1", "binary_size": int(f[1]), "filler": filler, "project_tree": int(f[6]), "entry_returns": int(f[7])}
         if f[4] != "-":
@@ -47,14 +67,15 @@ SPEC = dict(
           "[0, 3*max(bufSize, b1+b2)+2|marker|+8] (thorough: 6*) (geometry regenerated from pack.go) x 3 fillers; every proper prefix of the "
           "marker and every one-byte-changed marker at every alignment around 6 block boundaries x gaps to the real marker "
           "(0 = immediately followed); marker inside the binary; white-space after the marker; unpacked binaries; large random "
-          "sizes; 6 project trees (nested dirs, empty file, all byte values, files containing the marker, 120 kB archive, 40 files). "
+          "sizes; the real CLI executable packed and started as a child process with 9 command lines (none, unknown words, flags, "
+          "every tool name) x 2 trees: entry must run with its exit code and nothing else printed; 6 project trees (nested dirs, empty file, all byte values, files containing the marker, 120 kB archive, 40 files). "
           "Non-trivial = the marker does not lie inside the first read (n+|marker| > bufSize) or bytes were planted or white-space follows."),
     exhaustive="all source-binary sizes from 0 to 3 buffer lengths (more than two periods of every stride of the scanner, before and after the repair) with three fillers",
     trusted_base=[
         "archive/zip writer and reader of the Go standard library are inverse to each other (exercised by the file comparison, not modelled)",
         "the ECAL interpreter evaluates the entry program (C03-C06 cover it); the model stops at the bytes handed to the zip reader",
         "os.File.Read returns 1..len(p) bytes before the end of a regular file and 0, io.EOF at the end (the theorems hold for every such read schedule)",
-        "go/ast extractor in go/cmd/harness/c20.go that regenerates lean/Ecal/Gen/C20.lean (buffer sizes, keep expression, marker pieces, skip table)",
+        "go/ast extractor in go/cmd/harness/c20.go that regenerates lean/Ecal/Gen/C20.lean (buffer sizes, keep expression, marker pieces, skip table, first statement of main)",
     ],
     assumptions=[
         "no occurrence of the marker starts inside the source binary (binary followed by the marker): a binary that contains the complete "
